@@ -742,6 +742,8 @@ def searchsorted(a, v, side='left', sorter=None):
         return _np.searchsorted(a, v, side=side, sorter=sorter)
     count('np.searchsorted')
     a = list(_np.asarray(a, dtype=object).reshape(-1))
+    if sorter is not None:
+        a = [a[int(i)] for i in sorter]
 
     def one(z):
         # number of elements e with e < z (left) / e <= z (right)
